@@ -318,8 +318,8 @@ Section WithEnv.
 
   Lemma weigh_route_inv t d t' : inv t -> weigh_route t d = Ok t' -> inv t'.
   Proof.
-    intros Hinv. unfold weigh_route. destruct (hostpath (d_src d)) as [host path].
-    destruct (d_src d); [discriminate|]. destruct (get_route host path t); [|discriminate].
+    intros Hinv. unfold weigh_route. destruct (hostpath (d_src d)) as [host0 path]. cbn zeta.
+    destruct (d_src d); [discriminate|]. destruct (get_route (lower host0) path t); [|discriminate].
     destruct (_ =? 0); [discriminate|]. intros H; inversion H; subst t'.
     apply upd_host_inv; auto. intros rs. apply upd_route_ok.
     - reflexivity.
@@ -333,14 +333,14 @@ Section WithEnv.
     2:{ intros H; inversion H. apply sweep_inv. now apply filter_all_uniq. }
     destruct (d_src d) eqn:Es, (d_dst d) eqn:Ed.
     - intros H; inversion H. apply sweep_inv. now apply filter_all_uniq.
-    - destruct (canon _); [|discriminate]. destruct (hostpath []) as [host path].
-      destruct (get_route host path t); intros H; inversion H; subst; auto.
+    - destruct (canon _); [|discriminate]. destruct (hostpath []) as [host0 path]. cbn zeta.
+      destruct (get_route (lower host0) path t); intros H; inversion H; subst; auto.
       apply sweep_inv. now apply filter_one_uniq.
-    - destruct (hostpath _) as [host path].
-      destruct (get_route host path t); intros H; inversion H; subst; auto.
+    - destruct (hostpath _) as [host0 path]. cbn zeta.
+      destruct (get_route (lower host0) path t); intros H; inversion H; subst; auto.
       apply sweep_inv. now apply filter_one_uniq.
-    - destruct (canon _); [|discriminate]. destruct (hostpath _) as [host path].
-      destruct (get_route host path t); intros H; inversion H; subst; auto.
+    - destruct (canon _); [|discriminate]. destruct (hostpath _) as [host0 path]. cbn zeta.
+      destruct (get_route (lower host0) path t); intros H; inversion H; subst; auto.
       apply sweep_inv. now apply filter_one_uniq.
   Qed.
 
@@ -624,9 +624,9 @@ Definition del_selects_gen (norm : str -> str) (canon : str -> option str) (d : 
       end
   end.
 
-(* the code compares the host byte for byte ... *)
+(* byte-for-byte host comparison: what delRoute did before /repo commit b80fb7f *)
 Definition del_selects := del_selects_gen (fun h => h).
-(* ... the documented semantics folds letter case *)
+(* the documented semantics (and the code since b80fb7f) folds the host's letter case *)
 Definition del_selects_ci := del_selects_gen lower.
 
 Lemma flat_no_route h p t : uniq t -> get_route h p t = None ->
@@ -652,9 +652,9 @@ Section WithEnv3.
   (* del removes precisely the selected targets: what is left is the old content, in the old
      order, minus the selected triples -- for each of the argument forms *)
   Theorem del_precise t d t' : inv t -> del_route canon t d = Ok t' ->
-    flat t' = filter (fun x => negb (del_selects canon d x)) (flat t).
+    flat t' = filter (fun x => negb (del_selects_ci canon d x)) (flat t).
   Proof.
-    intros Hinv. pose proof (inv_uniq _ Hinv) as Hu. unfold del_route, del_selects, del_selects_gen.
+    intros Hinv. pose proof (inv_uniq _ Hinv) as Hu. unfold del_route, del_selects_ci, del_selects_gen.
     destruct (d_tags d) as [|tag tags] eqn:Et.
     2:{ intros H; inversion H; subst t'. rewrite flat_sweep, flat_filter_all.
         apply filter_ext. intros x. unfold del_tags_sel, contains_all. rewrite Et. reflexivity. }
@@ -667,23 +667,23 @@ Section WithEnv3.
     destruct (d_src d) as [|c src] eqn:Es; destruct (d_dst d) as [|c' dst] eqn:Ed.
     - intros H; inversion H; subst t'. rewrite flat_sweep, flat_filter_all. reflexivity.
     - destruct (canon _) as [url|]; [|discriminate].
-      destruct (hostpath []) as [host path] eqn:Eh. cbn [fst snd].
-      destruct (get_route host path t) eqn:Eg; intros H; inversion H; subst t'.
+      destruct (hostpath []) as [host0 path] eqn:Eh. cbn [fst snd]. cbn zeta.
+      destruct (get_route (lower host0) path t) eqn:Eg; intros H; inversion H; subst t'.
       + rewrite flat_sweep, flat_filter_one by assumption. apply filter_ext. intros x.
         unfold sel_at, del_dst_sel. reflexivity.
-      + rewrite (Hnone host path (fun x => beq (t_svc (snd x)) (d_svc d) && beq (t_url (snd x)) url) Eg) at 1.
+      + rewrite (Hnone (lower host0) path (fun x => beq (t_svc (snd x)) (d_svc d) && beq (t_url (snd x)) url) Eg) at 1.
         reflexivity.
-    - destruct (hostpath (c :: src)) as [host path] eqn:Eh. cbn [fst snd].
-      destruct (get_route host path t) eqn:Eg; intros H; inversion H; subst t'.
+    - destruct (hostpath (c :: src)) as [host0 path] eqn:Eh. cbn [fst snd]. cbn zeta.
+      destruct (get_route (lower host0) path t) eqn:Eg; intros H; inversion H; subst t'.
       + rewrite flat_sweep, flat_filter_one by assumption. apply filter_ext. intros x.
         unfold sel_at, del_svc_sel. reflexivity.
-      + rewrite (Hnone host path (fun x => beq (t_svc (snd x)) (d_svc d)) Eg) at 1. reflexivity.
+      + rewrite (Hnone (lower host0) path (fun x => beq (t_svc (snd x)) (d_svc d)) Eg) at 1. reflexivity.
     - destruct (canon _) as [url|]; [|discriminate].
-      destruct (hostpath (c :: src)) as [host path] eqn:Eh. cbn [fst snd].
-      destruct (get_route host path t) eqn:Eg; intros H; inversion H; subst t'.
+      destruct (hostpath (c :: src)) as [host0 path] eqn:Eh. cbn [fst snd]. cbn zeta.
+      destruct (get_route (lower host0) path t) eqn:Eg; intros H; inversion H; subst t'.
       + rewrite flat_sweep, flat_filter_one by assumption. apply filter_ext. intros x.
         unfold sel_at, del_dst_sel. reflexivity.
-      + rewrite (Hnone host path (fun x => beq (t_svc (snd x)) (d_svc d) && beq (t_url (snd x)) url) Eg) at 1.
+      + rewrite (Hnone (lower host0) path (fun x => beq (t_svc (snd x)) (d_svc d) && beq (t_url (snd x)) url) Eg) at 1.
         reflexivity.
   Qed.
 End WithEnv3.
@@ -712,33 +712,33 @@ Proof. intros H. rewrite <- (map_id l) at 2. now apply map_ext_in. Qed.
    weight divided by the number of selected targets -- and nothing else: same hosts, routes,
    targets, order; every unselected target is untouched *)
 Theorem weight_only_matching t d t' : inv t -> weigh_route t d = Ok t' ->
-  let n := N.of_nat (length (filter (weight_selects d) (flat t))) in
+  let n := N.of_nat (length (filter (weight_selects_ci d) (flat t))) in
   n <> 0 /\
-  flat t' = map (fun x => if weight_selects d x then reweigh (w_divn (d_w d) n) x else x) (flat t)
+  flat t' = map (fun x => if weight_selects_ci d x then reweigh (w_divn (d_w d) n) x else x) (flat t)
   /\ map fst t' = map fst t.
 Proof.
   intros Hinv. pose proof (inv_uniq _ Hinv) as Hu. unfold weigh_route.
-  destruct (hostpath (d_src d)) as [host path] eqn:Eh.
+  destruct (hostpath (d_src d)) as [host0 path] eqn:Eh. cbn zeta.
   destruct (d_src d) as [|c src] eqn:Es; [discriminate|].
-  destruct (get_route host path t) as [r|] eqn:Eg; [|discriminate].
+  destruct (get_route (lower host0) path t) as [r|] eqn:Eg; [|discriminate].
   destruct (count_match (d_svc d) (d_tags d) r =? 0) eqn:En; [discriminate|].
   intros H; inversion H; subst t'. clear H. cbn zeta.
   (* the number of selected triples is the number of matches in the route *)
-  assert (Hcount : length (filter (weight_selects d) (flat t))
+  assert (Hcount : length (filter (weight_selects_ci d) (flat t))
                    = length (filter (weight_match (d_svc d) (d_tags d)) (r_targets r))).
-  { unfold get_route in Eg. destruct (lookup host t) as [rs|] eqn:EL; [|discriminate].
+  { unfold get_route in Eg. destruct (lookup (lower host0) t) as [rs|] eqn:EL; [|discriminate].
     destruct (lookup_split _ _ _ EL) as (a & b & E & Hn & _). subst t.
     destruct (find_split _ _ _ Eg) as (a' & b' & -> & Hpr & Hn' & _).
     destruct Hu as [Hd Hp].
     rewrite map_app in Hd. cbn [map fst] in Hd. apply NoDup_remove_2 in Hd.
     apply Forall_app in Hp as [_ Hp]. inversion Hp as [|? ? Hrs _]; subst. cbn [snd] in Hrs.
     rewrite map_app in Hrs. cbn [map] in Hrs. apply NoDup_remove_2 in Hrs.
-    assert (Hnil : forall l, (forall x, In x l -> ~ at_hp host (r_path r) x) -> filter (weight_selects d) l = []).
+    assert (Hnil : forall l, (forall x, In x l -> ~ at_hp (lower host0) (r_path r) x) -> filter (weight_selects_ci d) l = []).
     { intros l Hl. induction l as [|x l IH]; auto. cbn [filter].
-      assert (Hx : weight_selects d x = false).
-      { unfold weight_selects, weight_selects_gen. rewrite Es, Eh. cbn [fst snd].
+      assert (Hx : weight_selects_ci d x = false).
+      { unfold weight_selects_ci, weight_selects_gen. rewrite Es, Eh. cbn [fst snd].
         specialize (Hl x (or_introl eq_refl)). unfold at_hp in Hl.
-        destruct (beq (fst (fst x)) host) eqn:E1; auto. destruct (beq (snd (fst x)) (r_path r)) eqn:E2; auto.
+        destruct (beq (fst (fst x)) (lower host0)) eqn:E1; auto. destruct (beq (snd (fst x)) (r_path r)) eqn:E2; auto.
         apply beq_true_eq in E1, E2. tauto. }
       rewrite Hx. apply IH. intros y Hy. apply Hl. now right. }
     rewrite !flat_app, !flat_cons, !flat_routes_app, !flat_routes_cons, !filter_app'.
@@ -746,83 +746,81 @@ Proof.
     2:{ intros x Hx [Hh _]. apply flat_hosts in Hx. congruence. }
     rewrite (Hnil (flat b)).
     2:{ intros x Hx [Hh _]. apply flat_hosts in Hx. apply Hd, in_or_app. right. congruence. }
-    rewrite (Hnil (flat_routes host a')).
+    rewrite (Hnil (flat_routes (lower host0) a')).
     2:{ intros x Hx [_ Hq]. apply flat_routes_paths in Hx as [_ Hx]. congruence. }
-    rewrite (Hnil (flat_routes host b')).
+    rewrite (Hnil (flat_routes (lower host0) b')).
     2:{ intros x Hx [_ Hq]. apply flat_routes_paths in Hx as [_ Hx]. apply Hrs, in_or_app. right. congruence. }
     cbn [app]. rewrite !app_nil_r, filter_map', map_length. f_equal. apply filter_ext. intros tg.
-    unfold weight_selects, weight_selects_gen, weight_match, contains_all. rewrite Es, Eh. cbn [fst snd]. now rewrite !beq_refl. }
+    unfold weight_selects_ci, weight_selects_gen, weight_match, contains_all. rewrite Es, Eh. cbn [fst snd]. now rewrite !beq_refl. }
   unfold count_match in En. rewrite <- Hcount in En. apply N.eqb_neq in En.
   split; [exact En|]. split; [|apply upd_host_fst].
   idtac.
-  set (w' := w_divn (d_w d) (N.of_nat (length (filter (weight_selects d) (flat t))))).
+  set (w' := w_divn (d_w d) (N.of_nat (length (filter (weight_selects_ci d) (flat t))))).
   (* set_weight recomputes the count from the route; replace it by w' *)
-  assert (HF : upd_host host (upd_route path (set_weight (d_svc d) (d_w d) (d_tags d))) t
-             = upd_host host (upd_route path (fun r0 => {| r_path := r_path r0;
+  assert (HF : upd_host (lower host0) (upd_route path (set_weight (d_svc d) (d_w d) (d_tags d))) t
+             = upd_host (lower host0) (upd_route path (fun r0 => {| r_path := r_path r0;
                   r_targets := map (fun tg => if weight_match (d_svc d) (d_tags d) tg then set_fw w' tg else tg)
                                    (r_targets r0) |})) t).
-  { unfold get_route in Eg. destruct (lookup host t) as [rs|] eqn:EL; [|discriminate].
+  { unfold get_route in Eg. destruct (lookup (lower host0) t) as [rs|] eqn:EL; [|discriminate].
     destruct (lookup_split _ _ _ EL) as (a & b & E & Hn & Hup). rewrite !Hup. f_equal. f_equal. f_equal.
     destruct (find_split _ _ _ Eg) as (a' & b' & -> & Hpr & Hn' & Hup'). rewrite !Hup'. f_equal. f_equal.
     unfold set_weight, count_match. unfold w'. now rewrite Hcount. }
   rewrite HF. apply flat_upd_one; auto.
   - intros x y. apply map_app.
   - intros l Hl. apply map_id_in. intros x Hx. specialize (Hl _ Hx). unfold at_hp in Hl.
-    unfold weight_selects, weight_selects_gen. rewrite Es, Eh. cbn [fst snd].
-    destruct (beq (fst (fst x)) host) eqn:E1; auto. destruct (beq (snd (fst x)) path) eqn:E2; auto.
+    unfold weight_selects_ci, weight_selects_gen. rewrite Es, Eh. cbn [fst snd].
+    destruct (beq (fst (fst x)) (lower host0)) eqn:E1; auto. destruct (beq (snd (fst x)) path) eqn:E2; auto.
     apply beq_true_eq in E1, E2. tauto.
   - intros r0 Hr0. cbn [r_targets]. rewrite !map_map. apply map_ext. intros tg.
-    unfold weight_selects, weight_selects_gen, weight_match, contains_all, reweigh. rewrite Es, Eh. cbn [fst snd]. rewrite !beq_refl.
+    unfold weight_selects_ci, weight_selects_gen, weight_match, contains_all, reweigh. rewrite Es, Eh. cbn [fst snd]. rewrite !beq_refl.
     cbn [andb]. destruct (_ && _); reflexivity.
 Qed.
 
-(* ================= case-insensitive reading: on the domain, and refuted off it ================= *)
+(* ================= corollaries kept from before the repair of F-C05-1 ================= *)
+(* (the hypothesis on the host is no longer needed) *)
 Theorem del_precise_ci_on_domain canon t d t' :
   inv t -> del_route canon t d = Ok t' ->
   lower (fst (hostpath (d_src d))) = fst (hostpath (d_src d)) ->
   flat t' = filter (fun x => negb (del_selects_ci canon d x)) (flat t).
-Proof.
-  intros Hinv H Hl. rewrite (del_precise canon t d t' Hinv H). apply filter_ext. intros x.
-  unfold del_selects, del_selects_ci, del_selects_gen. now rewrite Hl.
-Qed.
+Proof. intros Hinv H _. exact (del_precise canon t d t' Hinv H). Qed.
 
 Theorem weight_only_matching_ci_on_domain t d t' : inv t -> weigh_route t d = Ok t' ->
   lower (fst (hostpath (d_src d))) = fst (hostpath (d_src d)) ->
   let n := N.of_nat (length (filter (weight_selects_ci d) (flat t))) in
   flat t' = map (fun x => if weight_selects_ci d x then reweigh (w_divn (d_w d) n) x else x) (flat t).
-Proof.
-  intros Hinv H Hl. destruct (weight_only_matching t d t' Hinv H) as (_ & Hf & _). cbn zeta in *.
-  assert (E : forall x, weight_selects_ci d x = weight_selects d x).
-  { intros x. unfold weight_selects, weight_selects_ci, weight_selects_gen. now rewrite Hl. }
-  rewrite Hf. rewrite (filter_ext _ _ E). apply map_ext. intros x. now rewrite E.
-Qed.
+Proof. intros Hinv H _. destruct (weight_only_matching t d t' Hinv H) as (_ & Hf & _). exact Hf. Qed.
 
 (* concrete scripts; newline = byte 10 *)
 Definition idcanon (d : str) : option str := Some d.
 Definition anyglob (p : str) : bool := true.
 Definition nl : str := [10].
 Definition nt_text (text : str) : outcome table := new_table pweight_dec idcanon anyglob text.
+(* NewTable as it was before /repo commit b80fb7f *)
+Definition nt_text_unrepaired (text : str) : outcome table :=
+  new_table_unrepaired pweight_dec idcanon anyglob text.
 
 Definition ex_add_lower : str := bs "route add svc foo.com/ http://10.0.0.1:80/".
 Definition ex_add_upper : str := bs "route add svc Foo.com/ http://10.0.0.1:80/".
 
 (* non-vacuity of the hypotheses of the theorems above: a real script whose table satisfies inv,
-   a del that removes something, a weight that matches *)
+   a del that removes something, a weight that matches -- with mixed-case hosts *)
 Definition ex_script : str :=
   ex_add_lower ++ nl ++ bs "route add svc foo.com/ http://10.0.0.2:80/ tags ""a,b""" ++ nl
   ++ bs "route add api bar.org/x http://10.0.0.3:80/ weight 0.25" ++ nl
-  ++ bs "route weight svc foo.com/ weight 0.5" ++ nl
-  ++ bs "route del svc foo.com/ http://10.0.0.1:80/".
+  ++ bs "route weight svc FOO.com/ weight 0.5" ++ nl
+  ++ bs "route del svc Foo.com/ http://10.0.0.1:80/".
 
 Lemma ex_script_ok : exists t, nt_text ex_script = Ok t /\ length (flat t) = 2%nat.
 Proof. eexists. split; vm_compute; reflexivity. Qed.
 
-(* "route del svc Foo.com/" leaves the target that "route del svc foo.com/" removes *)
+(* F-C05-1, REPAIRED in /repo by b80fb7f.  Before the repair "route del svc Foo.com/" left the
+   target that "route del svc foo.com/" removes; the theorem is about [del_route_unrepaired] /
+   [new_table_unrepaired], the model of the old code ... *)
 Theorem host_case_del_refuted :
-  exists t d t', inv t /\ del_route idcanon t d = Ok t' /\
+  exists t d t', inv t /\ del_route_unrepaired idcanon t d = Ok t' /\
     flat t' <> filter (fun x => negb (del_selects_ci idcanon d x)) (flat t)
-    /\ nt_text (ex_add_lower ++ nl ++ bs "route del svc Foo.com/") = nt_text ex_add_lower
-    /\ nt_text (ex_add_lower ++ nl ++ bs "route del svc foo.com/") = Ok [].
+    /\ nt_text_unrepaired (ex_add_lower ++ nl ++ bs "route del svc Foo.com/") = nt_text_unrepaired ex_add_lower
+    /\ nt_text_unrepaired (ex_add_lower ++ nl ++ bs "route del svc foo.com/") = Ok [].
 Proof.
   pose (d := {| d_cmd := CmdDel; d_svc := bs "svc"; d_src := bs "Foo.com/"; d_dst := []; d_w := WZ;
                 d_tags := []; d_opts := [] |}).
@@ -835,10 +833,23 @@ Proof.
   split; vm_compute; reflexivity.
 Qed.
 
-(* "route weight svc Foo.com/ ..." matches nothing although the route was added as Foo.com/ *)
+(* ... and the same witness on the model of the code as it is now *)
+Theorem host_case_del_repaired :
+  nt_text (ex_add_lower ++ nl ++ bs "route del svc Foo.com/") = Ok [].
+Proof. vm_compute. reflexivity. Qed.
+
+(* F-C05-1, REPAIRED by b80fb7f.  Before: "route weight svc Foo.com/ ..." matched nothing although
+   the route was added as Foo.com/ *)
 Theorem host_case_weight_refuted :
-  nt_text (ex_add_upper ++ nl ++ bs "route weight svc Foo.com/ weight 0.5") = Err e_no_match
-  /\ exists t, nt_text (ex_add_upper ++ nl ++ bs "route weight svc foo.com/ weight 0.5") = Ok t
+  nt_text_unrepaired (ex_add_upper ++ nl ++ bs "route weight svc Foo.com/ weight 0.5") = Err e_no_match
+  /\ exists t, nt_text_unrepaired (ex_add_upper ++ nl ++ bs "route weight svc foo.com/ weight 0.5") = Ok t
+               /\ length (flat t) = 1%nat.
+Proof. split; [vm_compute; reflexivity|]. eexists. split; vm_compute; reflexivity. Qed.
+
+Theorem host_case_weight_repaired :
+  nt_text (ex_add_upper ++ nl ++ bs "route weight svc Foo.com/ weight 0.5")
+  = nt_text (ex_add_upper ++ nl ++ bs "route weight svc foo.com/ weight 0.5")
+  /\ exists t, nt_text (ex_add_upper ++ nl ++ bs "route weight svc Foo.com/ weight 0.5") = Ok t
                /\ length (flat t) = 1%nat.
 Proof. split; [vm_compute; reflexivity|]. eexists. split; vm_compute; reflexivity. Qed.
 
@@ -991,8 +1002,8 @@ Section Total.
       destruct (lookup _ _); [destruct (find _ _)|]; try destruct (glob_ok _); discriminate.
     - unfold del_route. destruct (d_tags d); [|discriminate].
       destruct (d_src d), (d_dst d); try discriminate;
-        try (destruct (canon _); [|discriminate]); destruct (hostpath _); destruct (get_route _ _ _); discriminate.
-    - unfold weigh_route. destruct (hostpath _). destruct (d_src d); [discriminate|].
+        try (destruct (canon _); [|discriminate]); destruct (hostpath _); cbn zeta; destruct (get_route _ _ _); discriminate.
+    - unfold weigh_route. destruct (hostpath _). cbn zeta. destruct (d_src d); [discriminate|].
       destruct (get_route _ _ _); [|discriminate]. destruct (_ =? 0); discriminate.
   Qed.
 
